@@ -101,6 +101,8 @@ def EnumDecl.values (e : EnumDecl) : List Text := e.literals.map (·.2)
 
 structure MM where
   enums : List EnumDecl
+  /-- names of our types which are not enumerations (classes, constrained primitives) -/
+  classes : List Name
   constants : List Const
   deriving DecidableEq, Repr, Inhabited
 
@@ -130,6 +132,8 @@ inductive Err
   | dangling (c s : Name)
   /-- parse verification: `… is not a constant set` -/
   | notASet (c s : Name)
+  /-- parse verification: the item type of the set is neither a primitive nor one of our types -/
+  | danglingType (c : Name)
   /-- `_to_constant_set_of_primitives`: literal `i` is not of the item type -/
   | literalType (c : Name) (i : Nat)
   /-- `_to_constant`: the item type is neither a primitive nor an enumeration -/
@@ -170,6 +174,13 @@ def verifySubsetsOf (cs : List Const) (c : Const) : List Err :=
     | some _ => []
 
 def parseVerify (cs : List Const) : List Err := cs.flatMap (verifySubsetsOf cs)
+
+/-- `_verify_symbol_table`, region "Check type annotations": the items type of a constant set -/
+def verifyItemTypes (ourTypes : List Name) (cs : List Const) : List Err :=
+  cs.flatMap fun c =>
+    match c with
+    | .enumSet n e _ _ => if ourTypes.contains e then [] else [.danglingType n]
+    | _ => []
 
 /-! ### first pass of the intermediate stage -/
 
@@ -296,7 +307,7 @@ def frontEnd (mm : MM) : Verdict :=
   if !mm.enums.all enumNamesUnique then .crash "parse.Enumeration.__init__" else
   let e1 := mm.constants.flatMap parseConst
   if !e1.isEmpty then .rejected .parse e1 else
-  let e2 := parseVerify mm.constants
+  let e2 := parseVerify mm.constants ++ verifyItemTypes (mm.enums.map (·.name) ++ mm.classes) mm.constants
   if !e2.isEmpty then .rejected .verify e2 else
   if !mm.enums.all enumValuesUnique then .crash "intermediate.Enumeration.__init__" else
   match firstPass mm.enums mm.constants with
@@ -395,5 +406,12 @@ def expectedEnumGuards : List String :=
 def expectedPrimMembership : String := "literal.value not in constant_set.literal_value_set"
 def expectedEnumMembership : String := "id(literal) not in constant_set.literal_id_set"
 def expectedFinal : List String := ["len(errors) > 0", "(None, errors)", "(subsets, None)"]
+/-- only `constant.literals` are written, never the subsets -/
+def expectedEmittedLoops : List String := ["enumerate(constant.literals)", "enumerate(constant.literals)"]
+/-- `{I}{string_literal(literal.value)}: aas_types.{name}.{literal_name},` and `return {map}.get(text, None)` -/
+def expectedFromStrEntry : List String := ["I", "python_common.string_literal(literal.value)", "name", "literal_name"]
+def expectedFromStrLookup : String := ".get(text, None)"
+/-- `{literal_name} = {repr(literal.value)}` -/
+def expectedEnumMemberLine : List String := ["literal_name", "repr(literal.value)"]
 
 end AasVerif.SdkConst
